@@ -95,6 +95,10 @@ func Matches(want model.Val, obj any, path string) string {
 			if collator.RankValues(arr[i], arr[i+1]) != age.LesserRank {
 				return fmt.Sprintf("%s: the Set %v is not strictly ascending at position %d", path, got, i+1)
 			}
+			// and by the reference order, where one is defined for the pair (the collator is the library's own)
+			if cmp, ok := model.Ord(model.Abstract(arr[i]), model.Abstract(arr[i+1])); ok && cmp > 0 {
+				return fmt.Sprintf("%s: the Set %v is not in the natural order at position %d", path, got, i+1)
+			}
 		}
 		return ""
 	case "Catalog", "Map":
